@@ -333,7 +333,9 @@ def add_import_cases(chk: Check, n: int, scratch: Path) -> list[dict]:
     out = []
     fixed = [(["pyapis", "business"], ["business", "core", "http_transport"]), (["x", "c"], ["c", "abc"]),
              (["dup", "dup"], ["dup", "dup", "models", "user"]), (["a", "b", "client"], ["b", "client", "models", "u"]),
-             (["client"], ["client", "models", "u"]), (["a", "client"], ["other", "lib"])]
+             (["client"], ["client", "models", "u"]), (["a", "client"], ["other", "lib"]),
+             (["x", "collections"], ["collections", "abc"]), (["a", "zz_core"], ["zz_core", "http_transport"]),
+             (["dup", "dup"], ["dup", "models", "user"])]
     for i in range(n):
         if i < len(fixed):
             pkg, m = fixed[i]
